@@ -452,10 +452,10 @@ pub fn run(args: &Args) -> Report {
         cases.push(Case { label: format!("B: cycles {s:?}"), exec: Box::new(move |r| exec_b(&s2, r)) });
     }
     let plan = Plan {
-        ks: if thorough { vec![0, 1, 2] } else { vec![0, 1] },
+        ks: if thorough { vec![0, 1, 2, 3] } else { vec![0, 1, 2] },
         env: 0,
         fault: 0,
-        total_wall: Duration::from_secs(if thorough { 1500 } else { 40 }),
+        total_wall: Duration::from_secs(if thorough { 1500 } else { 25 }),
         max_execs_per_case: 400_000,
         required_witnesses: W_ABORT_SEEN | W_BYST_DONE | W_REUSE_ACKED | W_REUSE_LOCAL | W_TABLES_EMPTY,
         witness_names: &[("abort_observed_as_eof", W_ABORT_SEEN), ("all_futures_completed", W_BYST_DONE), ("peer_reopen_of_same_id_acknowledged", W_REUSE_ACKED), ("local_reopen_drew_same_id", W_REUSE_LOCAL), ("flow_tables_empty_at_end", W_TABLES_EMPTY)],
